@@ -37,11 +37,10 @@ def run(ctx):
     counts = {}
     rc = ctx.replay_case()
     with open(cases, "w") as fo:
-        if rc is not None and rc.get("case") is not None and rc.get("kind") != "tlc-counterexample":
-            # --replay: only the stored case, as the kind of line it was
-            kind = rc.get("line_kind", "CASE")
-            fo.write('{"k":"%s","c":%s}\n' % (kind, json.dumps(rc["case"])))
-            counts[kind] = 1
+        if rc is not None and isinstance(rc.get("case"), dict) and "k" in rc["case"]:
+            # --replay: only the stored line
+            fo.write(json.dumps(rc["case"]) + "\n")
+            counts[rc["case"]["k"]] = 1
         else:
             for tag in TAGS:
                 n = 0
@@ -54,7 +53,7 @@ def run(ctx):
     ctx.cov["generated"] = counts
     bindir = ctx.cargo_build("vh_text", bins=["c15_text"])
     rep_path = os.path.join(ctx.out, "report.json")
-    sweep = "none" if rc is not None else ctx.tier
+    sweep = "none" if (rc is not None and isinstance(rc.get("case"), dict)) else ctx.tier
     ctx.run_harness(os.path.join(bindir, "c15_text"), [cases, rep_path, sweep], timeout=2400)
     rep = json.load(open(rep_path))
     ex = rep["extra"]
@@ -92,8 +91,7 @@ def run(ctx):
     for m in first + rest:
         d = m["detail"]
         ctx.violation("C15 %s: %s" % (m["what"], json.dumps(d, ensure_ascii=False)[:300]),
-                      {"case": m["case"], "detail": d, "what": m["what"],
-                       "line_kind": "CASE" if isinstance(m["case"], dict) and "t" in m["case"] else "FMT"},
+                      {"case": m["case"], "detail": d, "what": m["what"]},
                       signature="C15 %s" % m["what"])
     if rep["total_mismatches"]:
         vlib.log("  mismatch kinds: %s" % json.dumps(ex["mismatch_kinds"]))
